@@ -42,9 +42,8 @@ impl Parse for Input {
     fn parse(input: ParseStream) -> syn::Result<Self> {
         // The item exactly as it came in. Re-printing a parsed item is not the identity: the invisible groups around
         // `macro_rules!` fragments (`[u8; $e * 2]`) are lost on the way, and with them the meaning of the tokens.
-        let raw = input.cursor().token_stream();
-
         let attrs = input.call(syn::Attribute::parse_outer)?;
+        let raw = input.cursor().token_stream();
         let vis = input.parse()?;
 
         let unsafety: Option<syn::token::Unsafe> = input.parse()?;
@@ -102,7 +101,7 @@ pub struct InputFn {
     pub fn_sig: syn::Signature,
     // don't try to parse fn_body, just pass through the tokens:
     pub fn_body: proc_macro2::TokenStream,
-    /// The whole function as it was written (for a function that is the annotated item itself)
+    /// The function as it was written, after its attributes (for a function that is the annotated item itself)
     pub raw: Option<proc_macro2::TokenStream>,
 }
 
